@@ -30,6 +30,8 @@ Inductive save_cleanup := CleanupDelete | NoCleanup | UnknownCleanup.
 
 (* process.ProcessExecutor._start_processes: how many pending futures are started; which Process constructor is used *)
 Inductive start_policy := StartUpToMax | StartAllPending | StartUnknown.
+(* ProcessExecutor.wait: are queued futures started on every poll, or only when a result was received? *)
+Inductive wait_policy := WaitAlwaysStarts | WaitStartsIfReceived | WaitUnknown.
 Inductive proc_ctor := CtorMpContext | CtorModuleDefault | CtorUnknown.
 
 (* does each runner pass task.filter_context(<lab context>) as the context run() sees? *)
